@@ -145,8 +145,17 @@ def fixedRound (base : Nat) (upper : Bool) (s : List Char) (exp prec : Int) : Li
       let t := (keep.reverse.dropWhile (· == '0')).reverse                       -- :203-205
       (t, if t.isEmpty then 0 else exp)                                          -- :211-212
 
-/-- doprntf.c:73-324 -/
-def mpfPieces (p : Params) (letter : Char) (f : Mpf.F) : Pieces :=
+/-- what `__gmp_doprnt_mpf` has decided about the digits (doprntf.c:73-215, 249-252, 276) -/
+structure FDigits where
+  neg : Bool               -- mpf_get_str delivered a '-'
+  s : List Char            -- the digits, after the rounding of the fixed format: the value is 0.s × base^exp
+  exp : Int
+  prec : Int               -- the precision in force
+  sci : Bool               -- scientific notation (d.ddd and an exponent), else positional notation
+  deriving Repr, DecidableEq
+
+/-- doprntf.c:73-215 and the choice of the notation (:140, :247, :276) -/
+def mpfDigits (p : Params) (f : Mpf.F) : FDigits :=
   let base := p.base.natAbs
   let upper := decide (p.base < 0)
   -- :73-114 how many digits to ask for: (prec, ndigits)
@@ -162,34 +171,27 @@ def mpfPieces (p : Params) (letter : Char) (f : Mpf.F) : Pieces :=
   let exp0 := g.2
   -- :131-138 sign
   let neg : Bool := str.head? = some '-'
-  let sign : Option Char := if neg then some '-' else p.sign
   let s0 := if neg then str.tail else str
-  -- :226-243 / :249-262: (intlen, intzeros, fraczeros, fraclen, exponent text)
-  let fixedPart (s : List Char) (exp : Int) : Int × Int × Int × Int × List Char :=
-    if exp ≤ 0 then (0, 1, -exp, s.length, [])
-    else (min (s.length : Int) exp, exp - min (s.length : Int) exp, 0, s.length - min (s.length : Int) exp, [])
-  let sciPart (s : List Char) (exp : Int) : Int × Int × Int × Int × List Char :=
-    let intlen : Int := min 1 s.length
-    (intlen, if intlen = 0 then 1 else 0, 0, s.length - intlen, expTextIos letter (exp - intlen))    -- exptimes4 = 0
-  let r : List Char × Int × (Int × Int × Int × Int × List Char) :=
-    if p.conv = 1 then
-      let prec := if pn.1 ≤ -1 then max 0 ((s0.length : Int) - exp0) else pn.1                        -- :142-143
-      let fr := fixedRound base upper s0 exp0 prec                                                    -- :146-215
-      (fr.1, prec, fixedPart fr.1 fr.2)
-    else if p.conv = 2 then
-      (s0, if pn.1 ≤ -1 then max 0 ((s0.length : Int) - 1) else pn.1, sciPart s0 exp0)               -- :251-252
-    else if exp0 - 1 < -4 ∨ exp0 - 1 ≥ max 1 pn.1 then (s0, pn.1, sciPart s0 exp0)                   -- :276
-    else (s0, pn.1, fixedPart s0 exp0)
-  let s := r.1
-  let prec := r.2.1
-  let intlen := r.2.2.1
-  let intzeros := r.2.2.2.1
-  let fraczeros := r.2.2.2.2.1
-  let fraclen := r.2.2.2.2.2.1
-  let expStr := r.2.2.2.2.2.2
+  if p.conv = 1 then
+    let prec := if pn.1 ≤ -1 then max 0 ((s0.length : Int) - exp0) else pn.1                          -- :142-143
+    let fr := fixedRound base upper s0 exp0 prec                                                      -- :146-215
+    ⟨neg, fr.1, fr.2, prec, false⟩
+  else if p.conv = 2 then
+    ⟨neg, s0, exp0, if pn.1 ≤ -1 then max 0 ((s0.length : Int) - 1) else pn.1, true⟩                 -- :251-252
+  else ⟨neg, s0, exp0, pn.1, decide (exp0 - 1 < -4 ∨ exp0 - 1 ≥ max 1 pn.1)⟩                         -- :276
+
+/-- doprntf.c:131-138 (the sign character), :226-262 (the lengths), :288-328 (trailing zeros, point, base prefix) -/
+def piecesOf (p : Params) (letter : Char) (D : FDigits) : Pieces :=
+  let sign : Option Char := if D.neg then some '-' else p.sign
+  let len : Int := D.s.length
+  let intlen : Int := if D.sci then min 1 len else if D.exp ≤ 0 then 0 else min len D.exp             -- :253 / :230, :238
+  let intzeros : Int := if D.sci then (if intlen = 0 then 1 else 0) else if D.exp ≤ 0 then 1 else D.exp - intlen
+  let fraczeros : Int := if D.sci then 0 else if D.exp ≤ 0 then -D.exp else 0
+  let fraclen : Int := if D.sci ∨ 0 < D.exp then len - intlen else len
+  let expStr : List Char := if D.sci then expTextIos letter (D.exp - intlen) else []                  -- :258-262, exptimes4 = 0
   -- :288-298 trailing zeros up to the precision
   let preczeros : Int :=
-    if p.showtrailing then max 0 (prec - (fraczeros + fraclen + (if p.conv = 3 then intlen + intzeros else 0))) else 0
+    if p.showtrailing then max 0 (D.prec - (fraczeros + fraclen + (if p.conv = 3 then intlen + intzeros else 0))) else 0
   -- :302-303 radix point
   let pointlen : Int := if fraczeros + fraclen + preczeros ≠ 0 ∨ p.showpoint then 1 else 0
   -- :308-328 base prefix
@@ -197,7 +199,10 @@ def mpfPieces (p : Params) (letter : Char) (f : Mpf.F) : Pieces :=
     if p.showbase = .no then []
     else if p.showbase = .nonzero ∧ intlen = 0 ∧ fraclen = 0 then []
     else (if p.base = 16 then ['0', 'x'] else if p.base = -16 then ['0', 'X'] else if p.base = 8 then ['0'] else [])
-  ⟨sign, showbase, s, intlen, intzeros, pointlen, fraczeros, fraclen, preczeros, expStr⟩
+  ⟨sign, showbase, D.s, intlen, intzeros, pointlen, fraczeros, fraclen, preczeros, expStr⟩
+
+/-- doprntf.c:73-328 -/
+def mpfPieces (p : Params) (letter : Char) (f : Mpf.F) : Pieces := piecesOf p letter (mpfDigits p f)
 
 /-- doprntf.c:333-372: the calls of the output functions (decimal point ".") -/
 def emitPieces (p : Params) (q : Pieces) : List Call :=
@@ -228,5 +233,32 @@ def expLetter (f : Fmt) : Char := if f.hexOnly then '@' else if f.uppercase then
 def insertFG (o : OStream) (f : Mpf.F) : OStream :=
   let po := paramsFromIos o
   po.2.write (callsBytes (doprntMpfG po.1 (expLetter o.fmt) f))
+
+/-! ### the closed form of what `operator<< (ostream &, mpf)` writes (specification side) -/
+
+def zeros (n : Int) : List Char := List.replicate n.toNat '0'
+
+/-- positional notation of 0.s × base^exp: (integer part, fraction part) -/
+def fixedText (s : List Char) (exp : Int) : List Char × List Char :=
+  if exp ≤ 0 then (['0'], zeros (-exp) ++ s) else (s.take exp.toNat ++ zeros (exp - s.length), s.drop exp.toNat)
+
+/-- scientific notation: (the first digit, or 0 when there is none; the other digits) -/
+def sciText (s : List Char) : List Char × List Char := (if s = [] then ['0'] else s.take 1, s.drop 1)
+
+/-- integer part, point, fraction, trailing zeros, exponent.  Trailing zeros (under `showtrailing`: fixed, scientific, or
+    showpoint) fill the fraction up to `prec` digits — in the general format `prec` counts the digits of the integer part
+    too.  The point is written when a fraction digit or trailing zero follows it, or under showpoint. -/
+def floatBody (general showtrailing showpoint : Bool) (prec : Int) (ip fp expStr : List Char) : List Char :=
+  let pz := if showtrailing then zeros (prec - ((fp.length + (if general then ip.length else 0) : Nat) : Int)) else []
+  ip ++ (if fp ++ pz ≠ [] ∨ showpoint = true then ['.'] else []) ++ fp ++ pz ++ expStr
+
+/-- the text of an mpf on a stream with flags `fm`, width, fill, for the digits `D` and the parameters derived from the
+    stream: [padding] sign prefix [padding] body [padding] as for integers (`fieldLayout`), the prefix being "0x"/"0X" on a
+    hex stream with showbase and "0" on an octal stream with showbase unless there is no digit at all -/
+def specInsertF (fm : Fmt) (width : Int) (fill : Char) (p : Params) (D : FDigits) : List Char :=
+  let t := if D.sci then sciText D.s else fixedText D.s D.exp
+  let expStr := if D.sci then expTextIos (expLetter fm) (D.exp - (min 1 D.s.length : Nat)) else []
+  fieldLayout fm width fill (if D.neg then ['-'] else if fm.showpos then ['+'] else []) (prefixStr fm (decide (D.s = [])))
+    (floatBody (decide (p.conv = 3)) p.showtrailing p.showpoint D.prec t.1 t.2 expStr)
 
 end Mpir.CxxIo
